@@ -103,12 +103,14 @@ def compilable(case):
         return False
     if s["msg"] in ("openquote",):
         return False
+    if s["context"] in ("afterstmt",):      # a second statement on the line: one record per function is assumed
+        return False
     return True
 
 
-def gen_program(cases):
+def gen_program(cases, bom=False):
     """Returns (text of generated.rs, list of (uid, case, first_line, last_line))."""
-    out = ["#![allow(unused, unreachable_code, clippy::all)]\nuse log::{info, warn, error};\n\n"]
+    out = [("\ufeff" if bom else "") + "#![allow(unused, unreachable_code, clippy::all)]\nuse log::{info, warn, error};\n\n"]
     index = []
     line = 4
     uid = 7000
@@ -168,7 +170,7 @@ def run_program(binary, cases, structured):
         shutil.copy(os.path.join(common.REPO, "Cargo.lock"), os.path.join(crate, "Cargo.lock"))
         with open(os.path.join(crate, "src", "main.rs"), "w") as fh:
             fh.write(MAIN_RS)
-        text, index = gen_program(cases)
+        text, index = gen_program(cases, bom=structured)
         gen_path = os.path.join(crate, "src", "generated.rs")
         with open(gen_path, "w") as fh:
             fh.write(text)
